@@ -100,7 +100,7 @@ def run_case(case_id: int, ops_override=None, target_override=None):
                         op = {'op': 'clean'}
                     else:
                         k = rng.choice(sorted(acked)) if acked and rng.random() < 0.8 else rng.randrange(len(pool))
-                        op = {'op': rng.choice(['has', 'get', 'meta', 'list', 'bulk', 'bulkseek', 'bulkmeta']), 'h': rng.randrange(nh), 'k': k}
+                        op = {'op': rng.choice(['has', 'get', 'meta', 'list', 'bulk', 'bulkseek', 'bulkmeta']), 'h': rng.randrange(nh), 'k': k, 'skip': rng.random() < 0.3}
                 res['trace'].append(op)
                 res['steps'] += 1
                 res['stats']['op.' + op['op']] = res['stats'].get('op.' + op['op'], 0) + 1
@@ -161,7 +161,8 @@ def run_case(case_id: int, ops_override=None, target_override=None):
                             req = [kk] + [o for o in others if o != kk]
                             got = {}
                             if kind == 'bulkmeta':
-                                for hk, m in hd.get_objects_meta(req, skip_if_missing=False):
+                                skip = bool(op.get('skip', False))
+                                for hk, m in hd.get_objects_meta(req, skip_if_missing=skip):
                                     if hk in got:
                                         fail('bulkmeta-twice', f'handle {op["h"]}: get_objects_meta reported key of cid {cid(hk)} twice')
                                     got[hk] = m
@@ -172,6 +173,18 @@ def run_case(case_id: int, ops_override=None, target_override=None):
                                         fail('bulkmeta-stale', f'handle {op["h"]}: bulk metadata reports acknowledged cid {x} as missing')
                                 real_has = got[kk]['type'].value != 'missing' if kk in got else False
                                 data, found = None, None
+                                # the whole answer against the batched three-stage lookup of the model (Dos.Multi.bulkLookup)
+                                def form(m_):
+                                    tv = m_['type'].value
+                                    return f'packed.{m_["pack_id"]}.{m_["pack_offset"]}.{m_["pack_length"]}' if tv == 'packed' else tv
+                                real_line = ','.join(f'{x}={form(got[key(x)])}' for x in sorted(cid(hk_) for hk_ in got)) or '-'
+                                model_line = ask(f'multi bulk {op["h"]} {hd._IN_SQL_MAX_LENGTH} {hd._MAX_CHUNK_ITERATE_LENGTH} {1 if skip else 0} '  # pylint: disable=protected-access
+                                                 f'{store.show_nats([cid(x) for x in req])}')
+                                res['stats']['bulk_lookups_compared'] = res['stats'].get('bulk_lookups_compared', 0) + 1
+                                if real_line != model_line:
+                                    res['breaks'].append({'where': f'get_objects_meta of {len(req)} keys on handle {op["h"]} (step {step})', 'model': model_line[:300],
+                                                          'real': real_line[:300], 'theorem_or_correspondence': 'Dos.Multi.bulkLookup (bulkLookup_spec)',
+                                                          'case': {'case_id': case_id, 'ops': list(res['trace'])}})
                             else:
                                 loose_before = set(Raw(folder).loose_bytes)
                                 with hd.get_objects_stream_and_meta(req, skip_if_missing=False) as triplets:
@@ -197,8 +210,9 @@ def run_case(case_id: int, ops_override=None, target_override=None):
                                 data = got.get(kk)
                                 real_has = data is not None
                                 found = None
-                            for o in others:
-                                ask(f'multi get {op["h"]} {cid(o)}')
+                            if kind == 'bulkseek':
+                                for o in others:
+                                    ask(f'multi get {op["h"]} {cid(o)}')
                             if kind == 'bulkseek':
                                 # seeking in a compressed packed object re-loosens it (a cache): the same effect as adding it loose
                                 for hk in sorted(set(Raw(folder).loose_bytes) - loose_before):
